@@ -382,3 +382,61 @@ class Ctx:
             self.states, self.transitions, self.traces, self.evaluations, len(self.violations),
             len(self.known_hits), wall))
         return 1 if self.violations else 0
+
+
+def harness_farm(ctx, groups, make_src, cfgs, args, batch=6, opt="-O1", tag="h", run_timeout=3000, defines=None):
+    """Compile-and-run farm.  `groups`: dict key -> list of instances (instances of one key share a TU).
+    `make_src(list)` returns C++ source text.  A TU that fails to compile is bisected; an instance that
+    does not compile on its own is returned in `dropped` with its diagnostics.  Clang configurations are
+    built with the UBSan flag handlers, g++ ones plain.  Returns (records, dropped, n_programs)."""
+    batches = []
+    for key, lst in groups.items():
+        for i in range(0, len(lst), batch):
+            batches.append(lst[i:i + batch])
+    jobs = [(bi, b, cfg) for bi, b in enumerate(batches) for cfg in cfgs]
+    dropped = []
+    counter = [0]
+
+    def build(job):
+        bi, b, cfg = job
+        counter[0] += 1
+        name = "%s_%s_%d_%d" % (tag, cfg, bi, counter[0])
+        src = ctx.write(name + ".cc", make_src(b))
+        exe = ctx.path(name)
+        if cfg.startswith("c"):
+            rc, out = ctx.cxx_ubsan(src, exe, cfg=cfg, opt=opt, defines=defines)
+        else:
+            rc, out = ctx.cxx(src, exe, cfg=cfg, opt=opt, flags=[os.path.join(HARNESS, "noub.cc")], defines=defines)
+        if rc == 0:
+            return [(exe, b, cfg)]
+        if len(b) == 1:
+            dropped.append((b[0], cfg, "\n".join([l for l in out.splitlines() if "error" in l or "limit" in l][:8])))
+            return []
+        h = len(b) // 2
+        return build((bi, b[:h], cfg)) + build((bi, b[h:], cfg))
+    built = [x for lst in ctx.pmap(build, jobs) for x in lst]
+
+    def run(x):
+        exe, b, cfg = x
+        a = args(b, cfg) if callable(args) else args
+        recs = ctx.run_ndjson(exe, a, timeout=run_timeout)
+        for r in recs:
+            r["cfg"] = cfg
+        return recs
+    allrecs = [r for lst in ctx.pmap(run, built) for r in lst]
+    ctx.programs += len(built)
+    return allrecs, dropped, len(built)
+
+
+def wire_to_int(w):
+    v = 0
+    for limb in reversed(w["l"]):
+        v = v * 10000 + limb
+    return v * (w["s"] if w["s"] else 0)
+
+
+def fval(x):
+    """human-readable rendering of a float wire value"""
+    if x["cls"] != "fin":
+        return ("-" if x.get("s") else "") + x["cls"]
+    return "%s%d*2^%d" % ("-" if x["s"] else "", wire_to_int(x["m"]), x["e"])
